@@ -39,16 +39,22 @@ Obs(e) ==
                 => (e.ref[sh] = e.lg /\ (e.refco[sh] = e.co \/ "CoilSharedDisable" \in Deviations))
     /\ \A x \in Lights : AtRest(x)' => Top(x)' = e.lg[x]
     /\ (coil' # {}) = e.co
+\* whatever request reaches a show that is over has no effect (the observations of the line must show none)
+Void(sh) == st[sh].ph = "done" /\ Op(W, [op |-> "void", sh |-> sh])
+\* resume to a show that is not paused: the statement also admits that nothing happens
+ResumeNoop(sh) == Live(sh) /\ st[sh].armed /\ Op(W, [op |-> "resume", sh |-> sh])
+\* the driver found no pending timer to delay
+LateVoid(sh) == ~st[sh].armed /\ Op(W, [op |-> "late", sh |-> sh])
 Step(e) ==
     /\ \/ e.op = "play" /\ Play(e.sh)
-       \/ e.op = "stop" /\ (Stop(e.sh) \/ ZStop(e.sh))
-       \/ e.op = "pause" /\ (Pause(e.sh) \/ ZCtl(e.sh, [op |-> "pause", sh |-> e.sh]))
-       \/ e.op = "resume" /\ (Resume(e.sh) \/ ResumeArmed(e.sh) \/ ZCtl(e.sh, [op |-> "resume", sh |-> e.sh]))
-       \/ e.op = "advance" /\ (Advance(e.sh, e.n) \/ ZCtl(e.sh, [op |-> "advance", sh |-> e.sh, n |-> e.n]))
-       \/ e.op = "advance_to" /\ AdvanceTo(e.sh, e.k)
-       \/ e.op = "step_back" /\ (StepBack(e.sh, e.n) \/ ZCtl(e.sh, [op |-> "step_back", sh |-> e.sh, n |-> e.n]))
-       \/ e.op = "update" /\ Update(e.sh, e.sp)
-       \/ e.op = "late" /\ Late(e.sh, e.d)
+       \/ e.op = "stop" /\ (Stop(e.sh) \/ ZStop(e.sh) \/ Void(e.sh))
+       \/ e.op = "pause" /\ (Pause(e.sh) \/ Void(e.sh))
+       \/ e.op = "resume" /\ (Resume(e.sh) \/ ResumeArmed(e.sh) \/ ResumeNoop(e.sh) \/ Void(e.sh))
+       \/ e.op = "advance" /\ (Advance(e.sh, e.n) \/ Void(e.sh))
+       \/ e.op = "advance_to" /\ (AdvanceTo(e.sh, e.k) \/ Void(e.sh))
+       \/ e.op = "step_back" /\ (StepBack(e.sh, e.n) \/ Void(e.sh))
+       \/ e.op = "update" /\ (Update(e.sh, e.sp) \/ Void(e.sh))
+       \/ e.op = "late" /\ (Late(e.sh, e.d) \/ LateVoid(e.sh))
        \/ e.op = "adv" /\ Adv
     /\ Obs(e)
 TNext == l <= Len(Ev) /\ Step(Ev[l]) /\ l' = l + 1 /\ UNCHANGED tid
